@@ -35,7 +35,7 @@ REACHABLE_RAISES = {
 }
 
 
-LATER_RULES = " Later rules: (R4.i) keyless orderings of tuples that can hold None; (R4.j) operations on other modules for import tracing sit in handlers; (R4.k) constant-index access to regex match lists; (R4.l) contradiction rule for snippet parses; (R4.m) validity oracles are total (SyntaxError, ValueError, RecursionError, MemoryError); (R4.n) program text handed to sympy's parser is fenced for Exception; (R4.o) loosely annotated options are normalised before set algebra; (R4.p) = C17 R17.9; (R4.q) constant-index access to possibly-empty list fields is justified by path facts, the selecting template (sa/shapes.py) or the grammar, three-valued; (R4.r) contradiction rule for computed indexes; (R4.s) operator fields of constructed nodes have the right category; (R4.t) unbound set methods are not applied to frozensets; (R4.u) no call on the tracing path executes code of the analysed project (find_spec of dotted names, import_module outside the standard library); (R4.v) format_code is fenced against the depth of the syntax tree (RecursionError hands the input back); (R4.w) a cut byte string is decoded with an errors policy that cannot raise; (R4.y) no pattern applied to program text has an ambiguous alternative under a star (regex AST); (R4.x) of several substitutions with the same ambiguous repeated group the run limiter comes first (backtracking cost)."
+LATER_RULES = " Later rules: (R4.i) keyless orderings of tuples that can hold None; (R4.j) operations on other modules for import tracing sit in handlers; (R4.k) constant-index access to regex match lists; (R4.l) contradiction rule for snippet parses; (R4.m) validity oracles are total (SyntaxError, ValueError, RecursionError, MemoryError); (R4.n) program text handed to sympy's parser is fenced for Exception; (R4.o) loosely annotated options are normalised before set algebra; (R4.p) = C17 R17.9; (R4.q) constant-index access to possibly-empty list fields is justified by path facts, the selecting template (sa/shapes.py) or the grammar, three-valued; (R4.r) contradiction rule for computed indexes; (R4.s) operator fields of constructed nodes have the right category; (R4.t) unbound set methods are not applied to frozensets; (R4.u) no call on the tracing path executes code of the analysed project (find_spec of dotted names, import_module outside the standard library); (R4.v) format_code is fenced against the depth of the syntax tree (RecursionError hands the input back); (R4.w) a cut byte string is decoded with an errors policy that cannot raise; (R4.z) min / max of a kind-filtered statement list is taken only when something is left; (R4.y) no pattern applied to program text has an ambiguous alternative under a star (regex AST); (R4.x) of several substitutions with the same ambiguous repeated group the run limiter comes first (backtracking cost)."
 
 
 def check(prog: Program, tier: str) -> Result:
@@ -81,6 +81,7 @@ def check(prog: Program, tier: str) -> Result:
     _r4_w(prog, res)
     _r4_x(prog, res)
     _r4_y(prog, res)
+    _r4_z(prog, res)
     _r4_k(prog, res)
     _r4_l(prog, res)
     _r4_m(prog, res)
@@ -1565,6 +1566,58 @@ def _r4_g(prog: Program, res: Result) -> None:
     res.ok("R4.g", "pyrefact/", "package", "escape triage", f"{listed} explicit raise/assert statements are not caught locally (advisory list: feasibility of a raise is not a static fact)", trivial=True)
 
 
+# ------------------------------------------------------------------------------------------------ R4.z
+def _r4_z(prog: Program, res: Result) -> None:
+    """min() / max() of nothing raises ValueError.  A statement list of the grammar is never empty - but what is left of it after a
+    KIND filter can be: a function body of imports only, a module of definitions only.  Instance: min / max (no `default=`) over the
+    elements of a comprehension `[n for n in <X>.body if <isinstance test of n>]` (directly, or through the local it is bound to);
+    obligation: a test of that collection (truthiness / len) on the path, or a handler for ValueError."""
+    from ..pathcond import PathAnalysis, plain
+    n = 0
+    for fn in prog.funcs.values():
+        binds = bindings(fn)
+        pa = None
+        for c in prog.calls_in(fn):
+            if not (isinstance(c.func, ast.Name) and c.func.id in ("min", "max") and len(c.args) == 1 and not any(k.arg == "default" for k in c.keywords)):
+                continue
+            a = c.args[0]
+            coll = None
+            src = a
+            if isinstance(a, (ast.GeneratorExp, ast.ListComp)) and len(a.generators) == 1:
+                src = a.generators[0].iter
+                if a.generators[0].ifs and _kind_filter_over_body(a.generators[0]):
+                    coll = a
+            if coll is None and isinstance(src, ast.Name):
+                vals = [v for _s, v in binds.get(src.id, []) if v is not None]
+                if len(vals) == 1 and isinstance(vals[0], (ast.ListComp, ast.SetComp, ast.GeneratorExp)) and len(vals[0].generators) == 1 and _kind_filter_over_body(vals[0].generators[0]):
+                    coll = src
+            if coll is None:
+                continue
+            n += 1
+            if caught(c, fn, "ValueError") is not None:
+                res.ok("R4.z", fn.loc(c), fn.fq, f"{short(c, 70)} # extreme of a kind-filtered statement list", "inside a handler for ValueError")
+                continue
+            ok = False
+            if isinstance(coll, ast.Name):
+                pa = pa or PathAnalysis(prog, fn)
+                worlds = pa.worlds_at(c)
+                ok = bool(worlds) and all(any(f[0] == "lit" and ((f[2] and plain(f[1]) == coll.id) or (f[2] and plain(f[1]).replace(" ", "").startswith(f"lt(0,len({coll.id})")) or
+                                                                  (not f[2] and plain(f[1]).replace(" ", "") == f"eq(0,len({coll.id}))")) for f in w.facts) for w in worlds)
+            res.decide(ok, "R4.z", fn.loc(c), fn.fq, f"{short(c, 70)} # extreme of a kind-filtered statement list",
+                       "reached only when the filtered list is not empty" if ok else
+                       "the statements of one kind are filtered out of a body and the extreme of the REST is taken without a test that anything is left: a body that consists "
+                       "of the filtered kind only (a function of nothing but imports) raises ValueError out of the formatter")
+    if n == 0:
+        res.ok("R4.z", "pyrefact/", "package", "extremes of kind-filtered statement lists", "none", trivial=True)
+
+
+def _kind_filter_over_body(gen: ast.comprehension) -> bool:
+    it = gen.iter
+    over_body = isinstance(it, ast.Attribute) and it.attr in ("body", "orelse", "finalbody")
+    kind_test = any(isinstance(x, ast.Call) and isinstance(x.func, ast.Name) and x.func.id == "isinstance" for i in gen.ifs for x in ast.walk(i))
+    return over_body and kind_test
+
+
 # ------------------------------------------------------------------------------------------------ R4.y
 def _r4_y(prog: Program, res: Result) -> None:
     """Ambiguity under a star.  `(?:A|B)*` with an alternative that ENDS in an unbounded repeat of a class which can also match the first
@@ -2054,6 +2107,7 @@ class ValidPA(PathAnalysis):
 from ..selftest import Variant  # noqa: E402
 
 VARIANTS = [
+    Variant("minimum-of-what-a-kind-filter-leaves-untested", "FIRE", "abstractions", "    if not imports:\n        return scope.body[-1].end_lineno  # Nothing but imports: behind the last of them\n\n", "", "R4.z"),
     Variant("decorator-search-with-an-open-ended-comment-alternative", "FIRE", "core", "#[^\\n]*\\n)*\\Z\", source[:start_charno])", "#[^\\n]*)*\\Z\", source[:start_charno])", "R4.y"),
     Variant("entry-point-without-depth-fence", "FIRE", "main", "@_hand_back_code_that_is_too_deep\ndef format_code(", "def format_code(", "R4.v"),
     Variant("depth-fence-hands-back-nothing", "FIRE", "main", "            logger.error(\"The code is too deeply nested to be formatted\")\n            return source\n", "            logger.error(\"The code is too deeply nested to be formatted\")\n            raise\n", "R4.v"),
